@@ -12,6 +12,8 @@ import (
 
 // Object is one stored object of the simulated object store ("disk").
 type Object struct {
+	// TransientCut > 0: the next GET is cut short mid-body (then reset).
+	TransientCut int
 	Key  string
 	URL  string
 	Data []byte // bytes at rest (possibly zstd-compressed)
@@ -103,6 +105,23 @@ func (s *Store) ServeGet(x *Exchange, req *http.Request) (*http.Response, error)
 		return Response(req, 404, nil, Exact([]byte("NoSuchKey"))), nil
 	}
 	o.Gets++
+	if o.TransientCut > 0 && len(o.Data) > 1 {
+		// a transient delivery fault: this one answer breaks off mid-body (the
+		// object at rest is intact; the next GET gets all of it)
+		k := 1 + (o.TransientCut-1)%(len(o.Data)-1)
+		o.TransientCut = 0
+		o.Faults = append(o.Faults, fmt.Sprintf("transient-body-cut@%d", k))
+		o.LastStatus, o.LastServed, o.FaultsAtLastServe = 0, nil, len(o.Faults)
+		h := http.Header{}
+		if o.Enc != "" {
+			h.Set("Content-Encoding", o.Enc)
+		}
+		b := Exact(append([]byte(nil), o.Data...))
+		b.CutAfter = k
+		x.Answered, x.Outcome, x.Status, x.Sent, x.Encoding = true, "body-cut", 200, k, o.Enc
+		x.Declared = int64(len(o.Data))
+		return Response(req, 200, h, b), nil
+	}
 	o.LastStatus = 200
 	o.LastServed = append([]byte(nil), o.Data...)
 	o.LastServedEnc = o.Enc
